@@ -80,6 +80,36 @@ def rule_eff(c: Ctx, which: str = "api") -> RuleResult:
     return r
 
 
+def rule_eff_config(c: Ctx) -> RuleResult:
+    """The construction / configuration phase (constructors of the configuration classes, MarkdownIt's configuration methods and what
+    they reach) may write the instance it configures, but nothing at module or class level: such an object is shared by every
+    instance, so configuring or merely creating one instance would change another."""
+    r = RuleResult("EFFCFG", "construction and configuration of an instance write only that instance: no write effect of the configuration "
+                             "phase lands on a module-level or class-level object")
+    mi = c.p.cls("MarkdownIt")
+    api = {"parse", "render", "parseInline", "renderInline"}
+    roots = [f for n, f in mi.methods.items() if n not in api]
+    for cn in ("ParserCore", "ParserBlock", "ParserInline", "Ruler", "RendererHTML", "OptionsDict", "StateBlock", "StateInline", "StateCore", "Token"):
+        ci = c.p.classes.get(cn)
+        if ci is not None and "__init__" in ci.methods:
+            roots.append(ci.methods["__init__"])
+    if len(roots) < 15:
+        raise AnchorError(f"only {len(roots)} configuration entry points found")
+    phase = c.cg.reachable(roots)
+    for f in sorted(phase, key=lambda f: f.qual):
+        r.functions += 1
+        for e in c.eff.by_func.get(f, []):
+            if e.category.startswith("global"):
+                r.add(f"{f.short}|{alpha(f, e.stmt)[:100]}|{e.text}", c.where(f, e.stmt), f.short, e.text, "violation",
+                      f"writes the module-level object {e.category.split(':', 1)[-1]} ({e.detail}) while an instance is created or configured: "
+                      f"the object is shared by every instance, so what one instance does (or merely its existence) shows in another")
+            else:
+                r.add(f"{f.short}|{alpha(f, e.stmt)[:100]}|{e.text}", c.where(f, e.stmt), f.short, e.text, "discharged",
+                      f"object written is {e.category} - not module- or class-level")
+    r.floor = 60
+    return r
+
+
 def rule_eff_instance(c: Ctx) -> RuleResult:
     """EFF restricted to what two concurrent calls could both touch: same as EFF (used by C13/C14 with their own text)."""
     return rule_eff(c, "api")
